@@ -178,6 +178,7 @@ type checkRun struct {
 	wins     map[string]int
 	covers   int
 	coversUnknown int
+	sweepExcluded []string
 }
 
 func selectObligations(fr *FuncResult, prop string) (sel []*Obligation, skipped int) {
@@ -238,14 +239,35 @@ func cmdCheck(args []string) int {
 		fmt.Printf("no function carries a clause tagged %s\n", *prop)
 		return 2
 	}
-	engineErr := false
+	type job struct {
+		fn  *ssa.Function
+		ctr *Contract
+	}
+	var jobs []job
+	seenFn := map[*ssa.Function]bool{}
 	for _, c := range ctrs {
 		fn := prog.funcByKey[c.Key]
 		if fn == nil {
 			fmt.Printf("contract target not found: %s\n", c.Key)
 			continue
 		}
-		opts := VerifyOpts{Safety: contractWantsSafety(c, *prop), SafetyTags: []string{*prop}, Liveness: *prop == "C20"}
+		jobs = append(jobs, job{fn, c})
+		seenFn[fn] = true
+	}
+	if *prop == "C10" {
+		// zero-annotation sweep: every function of the packages that handle client input
+		for _, fn := range sweepFunctions(prog) {
+			if !seenFn[fn] && !sweepExcluded(prog, fn) {
+				jobs = append(jobs, job{fn, prog.contractFor(fn)})
+				seenFn[fn] = true
+			}
+		}
+		run.sweepExcluded = sweepExcludedNames(prog)
+	}
+	engineErr := false
+	for _, j := range jobs {
+		fn, c := j.fn, j.ctr
+		opts := VerifyOpts{Safety: *prop == "C10" || (c != nil && contractWantsSafety(c, *prop)), SafetyTags: []string{*prop}, Liveness: *prop == "C20"}
 		fr := verifyFunction(prog, fn, c, opts)
 		run.results = append(run.results, fr)
 		sel, sk := selectObligations(fr, *prop)
@@ -435,6 +457,7 @@ func writeEvidence(run *checkRun, total, discharged, knownHits, violations int, 
 			"load_seconds":             round3(run.prog.loadSecs),
 			"samples":                  samples,
 			"skipped_other_properties": run.skipped,
+			"sweep_excluded":           run.sweepExcluded,
 			"cover_points_reachable":   run.covers,
 			"cover_points_inconclusive": run.coversUnknown,
 			"contract_files":           run.prog.contracts.Files,
@@ -678,4 +701,31 @@ func solveCovers(cs []*Cover, timeoutS int) int {
 		}
 	}
 	return vac
+}
+
+// Functions left out of the panic-freedom sweep, with the reason.
+var sweepExclusions = map[string]string{
+	"protocol.(*ClientConfig).":                    "client side of the protocol (not reachable from client input to the gateway)",
+	"protocol.(*Gateway).setSendReceiveBuffers":    "walks reflect.Value: outside the verified subset (bounded stand-in in the thorough tier)",
+	"protocol.Disconnect":                          "administrative API, not reachable from client input",
+	"protocol.wrapSyscallError":                    "only called from setSendReceiveBuffers",
+	"config.ToCamel":                               "startup configuration only",
+}
+
+func sweepExcluded(prog *Program, fn *ssa.Function) bool {
+	n := prog.relName(fn)
+	for p := range sweepExclusions {
+		if strings.HasPrefix(n, p) {
+			return true
+		}
+	}
+	return false
+}
+
+func sweepExcludedNames(prog *Program) []string {
+	var out []string
+	for _, k := range sortedKeys(sweepExclusions) {
+		out = append(out, k+": "+sweepExclusions[k])
+	}
+	return out
 }
